@@ -49,13 +49,21 @@ pub fn install_hook() {
         } else {
             String::new()
         };
+        // a panic on a worker thread surfaces on the caller as "a scoped thread panicked": keep the original message too
+        if msg != "a scoped thread panicked" {
+            *LAST_ANY_PANIC.lock().unwrap() = msg.clone();
+        }
         LAST_PANIC.with(|p| *p.borrow_mut() = msg);
     }));
 }
 
+static LAST_ANY_PANIC: std::sync::Mutex<String> = std::sync::Mutex::new(String::new());
+
 fn classify() -> &'static str {
     LAST_PANIC.with(|p| {
-        let m = p.borrow();
+        let own = p.borrow();
+        let any = LAST_ANY_PANIC.lock().unwrap().clone();
+        let m: &String = if *own == "a scoped thread panicked" { &any } else { &*own };
         if std::env::var("VERIF_DEBUG").is_ok() {
             eprintln!("panic message: {}", *m);
         }
@@ -123,7 +131,12 @@ pub fn exec_window<S: ?Sized>(
         };
         let tr = poulpy_cpu_ref::hal_defaults::scratch::verif_hooks::trace_stop();
         if round == 0 {
-            ev = tr.iter().map(|(a, l, t)| (a.wrapping_sub(base + off), *l, *t)).collect();
+            // takes made on other arenas (a helper scratch used to observe the result) are not part of the trace
+            ev = tr
+                .iter()
+                .filter(|(a, _, _)| *a >= base + off && *a <= base + off + len)
+                .map(|(a, l, t)| (a.wrapping_sub(base + off), *l, *t))
+                .collect();
         }
         match r {
             Ok(o) => outs.push(o),
